@@ -234,7 +234,13 @@ func readBufioSize(reader *bufio.Reader, size int64) ([]byte, error, bool) {
 	var err error
 	var n int
 	for read != size {
-		buf := make([]byte, size-read)
+		// like read_chars in liolib.c a large count is read piecewise: the count need not be available.
+		// A negative count is never reached (there it becomes a huge size_t) and reads up to the end
+		bufsize := size - read
+		if bufsize < 0 || bufsize > 1<<16 {
+			bufsize = 1 << 16
+		}
+		buf := make([]byte, bufsize)
 		n, err = reader.Read(buf)
 		if err != nil {
 			break
